@@ -17,3 +17,13 @@ func Calc(b []byte, k int) (int, error) {
 	}
 	return s / 2, nil
 }
+
+// Dirty stands for an allocation of uninitialised memory (dirtmake.Bytes): n bytes of a content the
+// program must not depend on (here 0xEE), capacity c; panics unless 0 <= n <= c.
+func Dirty(n, c int) []byte {
+	b := make([]byte, n, c)
+	for i := range b {
+		b[i] = 0xEE
+	}
+	return b
+}
